@@ -12,6 +12,7 @@ import (
 	"fmt"
 	"io"
 	"net/http"
+	"reflect"
 	"strings"
 	"sync/atomic"
 	"time"
@@ -70,7 +71,27 @@ type c20client struct {
 	res  []c20result
 }
 
-func init() { engine.Register("C20", runC20) }
+func init() {
+	engine.Register("C20", runC20)
+	// the pattern cache is process-wide: filled here, every run of this scenario finds the
+	// pattern cached wherever it sits in the process's sequence of runs (the miss path and
+	// its interleavings are C17's subject)
+	_ = goa.ValidatePattern("warm", "c0-0", c20CodePattern)
+	// encoding/gob numbers types process-wide in order of first use, and the numbers are
+	// part of the wire bytes: fix that order here so a run's bytes (hence its chunking and
+	// schedule) do not depend on what the process encoded before
+	warmGob(&c20resp{}, &goahttp.ErrorResponse{}, &c20body{}, &c15Struct{}, "", []byte{})
+}
+
+func warmGob(vals ...any) {
+	for _, v := range vals {
+		var b bytes.Buffer
+		_ = gob.NewEncoder(&b).Encode(v)
+		_ = gob.NewDecoder(&b).Decode(reflect.New(reflect.TypeOf(v)).Interface())
+	}
+}
+
+const c20CodePattern = `^c[0-9]+-[0-9]+$`
 
 func runC20(t *verifsim.Tape, cfg engine.Config) *engine.Outcome {
 	o := &engine.Outcome{Features: map[string]int{}}
@@ -89,6 +110,7 @@ func runC20(t *verifsim.Tape, cfg engine.Config) *engine.Outcome {
 	h := sha256.New()
 	sim := verifsim.NewSim(t)
 	sim.Strategy = verifsim.Strategy(t.Draw("strategy", 4))
+	sim.KeepLog = cfg.Verbose
 	// ---- server ------------------------------------------------------------------
 	mux := goahttp.NewMuxer()
 	useRID := t.Draw("use-rid-mw", 2) == 0
@@ -109,7 +131,7 @@ func runC20(t *verifsim.Tape, cfg engine.Config) *engine.Outcome {
 		encoder = goahttp.ResponseEncoder
 		encErr  = goahttp.ErrorEncoder(encoder, nil) // one closure per mounted handler, shared by all requests
 	)
-	const codePattern = `^c[0-9]+-[0-9]+$`
+	const codePattern = c20CodePattern
 	handle := func(wild bool) http.HandlerFunc {
 		return func(w http.ResponseWriter, r *http.Request) {
 			ctx := context.WithValue(r.Context(), goahttp.AcceptTypeKey, r.Header.Get("Accept"))
@@ -281,7 +303,18 @@ func runC20(t *verifsim.Tape, cfg engine.Config) *engine.Outcome {
 		for k, r := range c.res {
 			q := c.reqs[k]
 			o.Features["req_"+q.Kind]++
-			fmt.Fprintf(h, "%d.%d:%d:%s:%x;", i, k, r.status, r.ct, sha256.Sum256(r.body))
+			// gob streams carry process-global type ids: the digest takes the decoded content
+			bodyDigest := fmt.Sprintf("%x", sha256.Sum256(r.body))
+			if mediaClass(r.ct) == "gob" {
+				var okv c20resp
+				var erv goahttp.ErrorResponse
+				if gob.NewDecoder(bytes.NewReader(r.body)).Decode(&okv) == nil && okv.ID != "" {
+					bodyDigest = fmt.Sprintf("gob:%+v", okv)
+				} else if gob.NewDecoder(bytes.NewReader(r.body)).Decode(&erv) == nil {
+					bodyDigest = fmt.Sprintf("gob:%+v", erv)
+				}
+			}
+			fmt.Fprintf(h, "%d.%d:%d:%s:%s;", i, k, r.status, r.ct, bodyDigest)
 			where := fmt.Sprintf("client %d request %d (%s, Accept %q)", i, k, q.Kind, q.Accept)
 			if r.panicked != nil {
 				o.Violate("panic", "panic:server:"+firstLine(fmt.Sprint(r.panicked)), "%s: %v", where, r.panicked)
@@ -349,7 +382,7 @@ func runC20(t *verifsim.Tape, cfg engine.Config) *engine.Outcome {
 	if len(first) > 3 {
 		first = first[:3]
 	}
-	o.Sample = map[string]any{"mode": "server", "tasks": nTasks, "requests": total, "request_id_middleware": useRID, "resolve_middleware": useResolve, "strategy": int(sim.Strategy), "steps": sim.Steps, "client0": first}
+	o.Sample = map[string]any{"mode": "server", "tasks": nTasks, "requests": total, "request_id_middleware": useRID, "resolve_middleware": useResolve, "strategy": int(sim.Strategy), "steps": sim.Steps, "client0": first, "schedule": sim.Sched}
 	return o
 }
 
